@@ -924,7 +924,7 @@ class VirtualCluster:
             # the lock of a node result file: let the other nodes run / their jobs end in that window
             last = self.trace[-1]
             if last.get("k") in ("release", "acquire") and str(last.get("lock", "")).startswith("results_batch") and last.get("pk") != "node":
-                nodes = [c for c in runs if c[1].stack[0].kind == "node" and c[1] is not self.last_actor] + [c for c in ch if c[0].startswith("finish:")]
+                nodes = [c for c in runs if c[1].stack[0].kind == "node" and c[1].proc.pid != last.get("p")] + [c for c in ch if c[0].startswith("finish:")]
                 if nodes and self.rng.random() < 0.8:
                     return self.rng.choice(nodes)
         if s == "collect_gap":
@@ -933,7 +933,7 @@ class VirtualCluster:
                 if ev.get("k") in ("squeue", "marker_touch", "round_end") and ev.get("pk") != "node":
                     break
                 if ev.get("k") == "collect" and ev.get("pk") != "node":
-                    nodes = [c for c in runs if c[1].stack[0].kind == "node" and c[1] is not self.last_actor] + [c for c in ch if c[0].startswith("finish:")]
+                    nodes = [c for c in runs if c[1].stack[0].kind == "node" and c[1].proc.pid != ev.get("p")] + [c for c in ch if c[0].startswith("finish:")]
                     if nodes and self.rng.random() < 0.9:
                         return self.rng.choice(nodes)
                     break
